@@ -358,6 +358,25 @@ func workerMain() {
 			}
 		}
 	}
+	// number forms (round 9): every spelling a float parser may treat specially - exponents at and beyond the float32 and
+	// float64 ranges, long mantissas, long fractions with an exponent, signs, hex, underscores, Inf / NaN - in each
+	// coordinate position of an otherwise well-formed facet
+	{
+		forms := []string{"0", "-0", "+1.5", "1.", ".5", "1e0", "1E+0", "1e-0", "1.175494E-38", "1.175494351e-38", "0.117549E-37", "1.0e-38", "1e-38", "1.0e-39",
+			"1.401298e-45", "0.0000000001e-30", "0.00000000000000000000000000000000000001", "1e-400", "4.9e-324", "2.2250738585072014e-308", "1.7976931348623157e308", "1.8e308",
+			"3.4028235e38", "3.4028236e38", "1e38", "1.0e38", "123456789012345e24", "1234567890123456789012345678901234567890", "0.123456789012345678901234567890e-20", "1e39", "1e+39", "-1e39",
+			"1e999", "1e-999", "1e9999999999", "1e-9999999999", "0x1p-2", "0x1.8p1", "1_000", "Inf", "-Inf", "+Infinity", "NaN", "nan", "1e", "e5", "1e+", "--1", "1..2", "1,5", "\u0661"}
+		for _, f := range forms {
+			for pos := 0; pos < 3; pos++ {
+				co := []string{"1", "2", "3"}
+				co[pos] = f
+				file := []byte(pad + "solid s\nfacet normal 0 0 1\nouter loop\nvertex " + strings.Join(co, " ") + "\nvertex 4 5 6\nvertex 7 8 " + f + "\nendloop\nendfacet\nendsolid s\n")
+				w.one(c, filepath.Join(work, "bin.stl"), file, map[string]any{"kind": "number-form", "form": f, "position": pos}, "number-form", true)
+				states++
+				trans += 2
+			}
+		}
+	}
 	// history (round 8): small and malformed files loaded right after a large ASCII model - what a load allocates is in
 	// proportion to ITS file, not to the file before it
 	{
